@@ -61,6 +61,22 @@ def run_impl(case):
     smp = Scripted()
     hist = np.array([[val(c) for c in r] for r in case["hist"]], dtype=float).reshape(len(case["hist"]), dims)
     hist0 = hist.copy()
+    if case.get("prior"):
+        # the same sampler object has been used before, on ANOTHER history of the same length: nothing of that call may leak
+        ph = np.array([[alpha[c] for c in r] for r in case["prior"]["hist"]], dtype=float).reshape(len(case["prior"]["hist"]), dims)
+        plan.insert(0, case["prior"]["draw"])
+        prior_err = None
+        with contextlib.redirect_stdout(io.StringIO()):
+            try:
+                pout = smp.sample(None, ph, np.zeros(len(ph)))
+                if len(smp.reqs) != 1 or [[float(v) for v in r] for r in pout] != [[alpha[c] for c in r] for r in case["prior"]["draw"]]:
+                    prior_err = f"prior call (no repeats at all) asked for {smp.reqs} points / altered its draw"
+            except Exception as e:  # noqa: BLE001
+                prior_err = f"prior call (no repeats at all) raised {type(e).__name__}: {e}"
+        if prior_err:
+            return {"error": prior_err, "reqs": smp.reqs, "flags": [], "snaps": [], "out": None, "shape": None,
+                    "hist_untouched": True, "calls": smp.k}
+        smp.reqs, smp.flag_log, smp.snap = [], [], []
     err = None
     with contextlib.redirect_stdout(io.StringIO()):
         try:
@@ -87,7 +103,9 @@ def plan_case(rng, dims, nalpha, bs, budget, nhist):
     Sizes are found by running the real code incrementally (no Python copy of the model is involved): the
     script is extended batch by batch with the size the implementation requested.
     """
-    alpha_pool = [-3.5, -1.0, -0.25, 0.5, 1.0, 2.75, 1e6]
+    # distinct values that are "close" by any tolerance-based comparison: 1e6 vs 1e6+1 (relative 1e-6), 1e-9 vs 2e-9 vs the
+    # zero below (absolute 1e-9): points are equal only if their coordinates are ==
+    alpha_pool = [-3.5, -1.0, -0.25, 0.5, 1.0, 2.75, 1e6, 1e6 + 1.0, 1e-9, 2e-9]
     rng.shuffle(alpha_pool)
     alpha = sorted(alpha_pool[:nalpha - 1] + [0.0])      # zero is always there: it has two float representations
     pt = lambda: tuple(rng.below(nalpha) for _ in range(dims))  # noqa: E731
@@ -105,6 +123,14 @@ def plan_case(rng, dims, nalpha, bs, budget, nhist):
             return tuple(rng.choice(cur))  # repeat within the batch / of an earlier redraw
         return pt()
 
+    if hist and rng.below(3) == 0:
+        # prior call: a history of the same length with different content, and a first draw that collides with nothing there
+        allp = [tuple(p) for p in itertools.product(range(nalpha), repeat=dims)]
+        ph = [pt() for _ in range(len(hist))]
+        free = [p for p in allp if p not in ph]
+        if ph != hist and len(free) >= bs:
+            rng.shuffle(free)
+            case["prior"] = {"hist": [list(p) for p in ph], "draw": [list(p) for p in free[:bs]]}
     sizes = [bs]
     seen_rows = []
     for _ in range(budget + 1):
@@ -257,6 +283,7 @@ def run(chk, replay=None):
                 "plus exhaustive enumeration of all scripts over a tiny alphabet; non-trivial = at least one pass found a "
                 "repeat; distinct = distinct (bs,budget,history,script)",
         "signed_zero_cases": sum(1 for c in cases if c.get("negzero")),
+        "reused_object_cases": sum(1 for c in cases if c.get("prior")),
         "samples": [{"case": cases[i], "observed_requests": observations[i]["reqs"], "observed_out": observations[i]["out"]}
                     for i in range(0, len(cases), max(1, len(cases) // 3))][:4],
         "traces_validated_against_impl": len(cases) - len(bad),
